@@ -54,7 +54,7 @@ fn gen_cases(ctx: &Ctx) -> Vec<Case> {
     let huge_cases = ctx.budget("huge_cases", 6, 60) as usize;
     let n = records.div_ceil(per_case);
     for i in 0..n {
-        v.push(Case { kind: "random", with_dict: i % 4 != 3, bgzf: i % 2 == 0, n: per_case, cseed: ctx.seed.wrapping_mul(1_000_003).wrapping_add(i as u64) });
+        v.push(Case { kind: "random", with_dict: i % 8 < 6, bgzf: i % 2 == 0, n: per_case, cseed: ctx.seed.wrapping_mul(1_000_003).wrapping_add(i as u64) });
     }
     for i in 0..huge_cases {
         v.push(Case { kind: "huge", with_dict: i % 3 != 2, bgzf: i % 2 == 0, n: 6, cseed: ctx.seed.wrapping_mul(7_000_003).wrapping_add(i as u64) });
@@ -108,20 +108,27 @@ fn build_case(c: &Case) -> (HeaderDesc, Vec<(RecDesc, Option<Invalid>)>) {
 }
 
 fn short_rec(r: &RecDesc) -> String {
-    let s = format!("{r:?}");
-    if s.len() > 700 { format!("{}…", &s[..700]) } else { s }
+    gensam::summary(r)
 }
 
 /// Normalises an error text into a reason class (digits -> #).
 fn reason(e: &std::io::Error) -> String {
-    let mut s = e.to_string();
+    // messages may quote data ("invalid name: <name>"): keep what follows a colon only if it is a
+    // range statement
+    fn level(m: String) -> String {
+        match m.split_once(": ") {
+            Some((head, rest)) if !rest.starts_with("expected") => head.to_string(),
+            _ => m,
+        }
+    }
+    let mut s = level(e.to_string());
     let mut src: Option<&(dyn std::error::Error + 'static)> = e.get_ref().and_then(|r| r.source());
     while let Some(x) = src {
         s.push_str(" / ");
-        s.push_str(&x.to_string());
+        s.push_str(&level(x.to_string()));
         src = x.source();
     }
-    guard::normalise_message(&s).chars().take(90).collect()
+    guard::normalise_message(&s).chars().take(100).collect()
 }
 
 struct Written {
@@ -336,6 +343,10 @@ fn run_case(c: &Case, idx: u64) -> CaseOut {
     out.count(&format!("records[{cfg}]"), descs.len() as u64);
     for &i in &accepted {
         out.fps.push(fnv1a(format!("{}|{cfg}", rec_class(&descs[i].0)).as_bytes()));
+        for a in gensam::aux_classes(&descs[i].0) {
+            out.fps.push(fnv1a(format!("{a}|{cfg}").as_bytes()));
+            out.count(&format!("{a}"), 1);
+        }
     }
 
     // the uncompressed stream, independently
@@ -536,7 +547,7 @@ fn run_case(c: &Case, idx: u64) -> CaseOut {
                     if let Some(df) = diff_records(e, &l, &Cmp::EXACT) {
                         if long && df.field == "aux:count" && only_extra_cg(e, &l) {
                             out.violation_with(
-                                format!("lazy-ne-eager:{path}:data-retains-CG-of-long-cigar"),
+                                "lazy-ne-eager:data-retains-CG-of-long-cigar",
                                 format!(
                                     "lazy data() of a record with {} CIGAR operations still yields the CG:B,I carrier field ({} fields) while cigar() already returns the real CIGAR; the eager decode removes it ({} fields)",
                                     descs[i].0.cigar.len(),
@@ -650,7 +661,7 @@ fn main() {
          the 16-letter alphabet plus lower case and foreign bytes, QUAL present/missing, every aux type A c C s S i I f Z H B:cCsSiIf at range \
          edges incl. empty arrays, -0, subnormals, inf, NaN) plus ~7% out-of-range records of 13 classes, written under (dictionary | no \
          dictionary) x (Writer::new BGZF | Writer::from raw); deterministic boundary corpus under all 4 combinations + VERIF_SEED-seeded random \
-         part; evaluation = one record handed to the writer; distinct = distinct (gensam::rec_class of an accepted record, configuration); \
+         part; evaluation = one record handed to the writer; distinct = distinct (gensam::rec_class of an accepted record [name length class, reference presence, position class, MAPQ class, CIGAR count class, number of kinds, SEQ parity + letter class, QUAL presence, mate class, aux count class], configuration) plus distinct (aux type [+ empty/long array], configuration); \
          non-trivial = accepted records (each is read back eagerly, decoded independently from the raw bytes, viewed lazily through 3 paths and \
          re-written)",
     );
